@@ -317,7 +317,7 @@ def _scratch_big_enough(res, op: StreamOp, fn: FuncInfo, lp, out, tag: str, nch:
         res.bad("R5", fn, fn.node, "kernel output buffer is not a single local allocation", construct=tag, key=key)
         return
     p = op.poly(alloc.args[0], alloc, stop={op.gulp_name(lp)})
-    g = Poly.sym(op.gulp_name(lp))
+    g = op.stride(lp)[0]
     # any block has at most min(gulp, range) <= header.nsamples samples
     if p in (Poly.sym("self.header.nsamples") * nch, g * nch, Poly.sym("RANGE_LEN") * nch):
         res.ok("R5", fn, alloc, "kernel output buffer can hold the largest block (count <= min(gulp, nsamples))", key=key)
